@@ -11,7 +11,7 @@ refused). Both are runs: `Extends.run`, `Pends.run`.
 namespace XV.Snapshot
 open XV.Chain
 
-theorem admV_of_admit (s : St) (lh : Int) (t : Tx) (h : admitTx s lh t = .ok) : AdmV (curVer s) t := by
+theorem admV_of_ok (s : St) (lh : Int) (t : Tx) (h : admitTx s lh t = .ok) : AdmV (curVer s) t := by
   obtain ⟨_, _, hread, hwr⟩ := XV.C03.admit_sound s lh t h
   exact ⟨hread, hwr⟩
 
@@ -34,7 +34,7 @@ theorem applyBlockTxs_run (e : Env) (lh : Int) (prop : String) (l : List Nat) (s
   | nil => trivial
   | cons i rest ih =>
     obtain ⟨hadm, hrest⟩ := applyBlockTxs_cons_ok e lh prop i rest s s2 h
-    refine ⟨admV_of_admit s lh _ hadm, ?_⟩
+    refine ⟨admV_of_ok s lh _ hadm, ?_⟩
     rw [← blockStep_view e prop i s]
     exact ih _ hrest
 
@@ -177,7 +177,7 @@ theorem Pends.run {e : Env} {s s' : St} (h : Pends e s s') :
       refine ⟨l ++ [i], ?_, ?_, ?_⟩
       · show s1.pool ++ [i] = s.pool ++ (l ++ [i])
         rw [h1, List.append_assoc]
-      · exact (RunV_snoc e l i _).mpr ⟨h2, by rw [← h3]; exact admV_of_admit s1 lh _ hadm⟩
+      · exact (RunV_snoc e l i _).mpr ⟨h2, by rw [← h3]; exact admV_of_ok s1 lh _ hadm⟩
       · have : curVer ({ applyTx s1 (e.tx i) with pool := s1.pool ++ [i] } : St) = curVer (applyTx s1 (e.tx i)) := rfl
         rw [this, runV_snoc, ← h3]
         exact funext (applyTx_view s1 (e.tx i))
